@@ -1349,4 +1349,77 @@ example : C01.PlainBinding {} ("a", .int 41) :=
 example : sameFunction ({} : Frame) { name := none, params := ["a"], variadic := false, lambda := true, key := "k", body := .ident "a", env := 0 } = false := by
   decide
 
+/-! ## the remaining node kinds: one step of `evalInternal` (so that every constructor of `Node` has its rule) -/
+
+theorem C01.evalI_ident (f : Nat) (name : String) : evalI (f + 1) (.ident name) = C15.enter (evalIdentifier name) := by
+  evalI_step
+theorem C01.evalI_incr_decr (f : Nat) (op : String) (right : Node) (hop : (op == "INCR" || op == "DECR") = true) :
+    evalI (f + 1) (.pre op right) = C15.enter (evalPrefixIncrDecr op right) := by
+  rw [evalI]; unfold C15.enter; congr 1; funext st; congr 1; funext _
+  cases st.cfg.deadlineAfter <;> simp only [hop] <;> rfl
+theorem C01.evalI_post (f : Nat) (op name : String) : evalI (f + 1) (.post op name) = C15.enter (evalPostfix op name) := by
+  evalI_step
+theorem C01.evalI_builtin (f : Nat) (name : String) (ps : List Node) :
+    evalI (f + 1) (.builtin name ps) = C15.enter (evalBuiltin f name ps) := by
+  evalI_step
+/-- an array literal: the elements left to right (first error value wins), dereferenced, in a new array -/
+theorem C01.evalI_arr (f : Nat) (els : List Node) :
+    evalI (f + 1) (.arr els) = C15.enter (do
+      match ← evalExpressions f els [] with
+      | .error e => pure e
+      | .ok v => do pure (newArray (← derefList v))) := by
+  evalI_step
+theorem C01.evalI_mapLit (f : Nat) (keys vals : List Node) :
+    evalI (f + 1) (.mapLit keys vals) = C15.enter (do
+      let cfg := (← get).cfg
+      evalMapLiteral f keys vals (newMapBig cfg keys.length) []) := by
+  evalI_step
+/-- an index node `l[i]` / `l.i`: the indexed expression first (through `Eval`), then `evalIndexExpression` -/
+theorem C01.evalI_idx (f : Nat) (tok : String) (l i : Node) :
+    evalI (f + 1) (.idx tok l i) = C15.enter (do
+      if tok == "DOT" then
+        if (← get).extNames.contains (l.literal ++ "." ++ i.literal) then stop (.unmodelled "namespaced extension")
+      let left ← eval f l
+      evalIndexExpression f left tok i) := by
+  evalI_step
+theorem C01.evalI_comment (f : Nat) : evalI (f + 1) .comment = C15.enter (pure .null) := by
+  evalI_step
+theorem C01.evalI_nil_node (f : Nat) : evalI (f + 1) .none = C15.enter (pure (err "unknown node type: <nil>")) := by
+  evalI_step
+theorem C01.evalI_macroLit (f : Nat) (ps : List String) (b : Node) :
+    evalI (f + 1) (.macroLit ps b) = C15.enter (stop (.unmodelled "macro literal reached the evaluator")) := by
+  evalI_step
+/-- a NAMED function literal `func f(..){..}` also binds its name in the current environment (`Set`) -/
+theorem C01.evalI_func_named (f : Nat) (n : String) (params : List String) (variadic lambda : Bool) (key : String)
+    (body : Node) :
+    evalI (f + 1) (.fn (some n) params variadic lambda key body) = C15.enter (do
+      let e ← curEnv
+      let fv : FuncVal := ⟨some n, params, variadic, lambda || false, key, body, e⟩
+      let oerr ← envSet e n (.func fv)
+      if oerr.isError then pure oerr else pure (.func fv)) := by
+  evalI_step
+/-- running out of fuel is the outcome "fuel", for every node -/
+theorem C01.evalI_no_fuel (node : Node) : evalI 0 node = stop .fuel := by
+  rw [evalI]
+
+/-- arguments / elements: left to right, each in the state its predecessor left; a non-error value is kept … -/
+theorem C01.exprs_continue (f : Nat) (e : Node) (rest : List Node) (acc : List Obj) (st : St) (v : Obj)
+    (h : outcome (evalI f e) st = .ok v) (hv : v.isError = false) :
+    SameRun (evalExpressions (f + 1) (e :: rest) acc) st (evalExpressions f rest (v :: acc))
+      (stateAfter (evalI f e) st) := by
+  rw [(C01.evalExpressions_cons f e rest acc).1]
+  refine (C01.sameRun_bind_ok _ _ _ _ h).trans ?_
+  simp only [hv, Bool.false_eq_true, if_false]
+  exact SameRun.refl _ _
+
+/-- … the first error value ends the list: the remaining expressions are NOT evaluated -/
+theorem C01.exprs_error (f : Nat) (e : Node) (rest : List Node) (acc : List Obj) (st : St) (m : String)
+    (h : outcome (evalI f e) st = .ok (.error m)) :
+    outcome (evalExpressions (f + 1) (e :: rest) acc) st = .ok (.error (.error m))
+    ∧ stateAfter (evalExpressions (f + 1) (e :: rest) acc) st = stateAfter (evalI f e) st := by
+  rw [(C01.evalExpressions_cons f e rest acc).1]
+  exact C01.sameRun_bind_ok _ _ _ _ h
+
+example : outcome (evalI 4 (.arr [.int 1, .int 2])) {} = .ok (.array [.int 1, .int 2]) := rfl
+
 end Grol.E
